@@ -28,7 +28,7 @@ ASSUMPTIONS = ["values are free of the ASTM delimiters | ^ \\ & CR and valid UTF
                "strptime for the canonical two-digit spellings; float repr for <= 15 significant digits without exponent"]
 NOW = _dt.datetime(2024, 1, 31, 12, 0, 7)
 MINI_TAGS = ["pi", "pn", "pb", "ps", "so", "si", "ci", "rt", "rn", "tt", "td", "ql", "qn", "y3", "qd", "nc", "id", "sn", "m4"]
-VALCH = [c for c in "ABCxyz0189 .-_/+:()%éµЖ" ]
+VALCH = [c for c in "ABCxyz0189 .-_/+:()%éµЖ{}" ]
 
 
 class FakeNow(_dt.datetime):
@@ -79,7 +79,7 @@ def spot_line(r):
     date = "%02d/%02d/%02d" % (y, m, d)
     time = "%02d:%02d" % (r.randrange(24), r.randrange(60))
     sid = "".join(r.choice("ABCXYZ0189-_") for _ in range(r.randrange(1, 10)))
-    stype = r.choice(["Serum", "Plasma", "Whole Blood", "U", "", "x]y"[:1]])
+    stype = r.choice(["Serum", "Plasma", "Whole Blood", "U", "", "x", "Plasma {EDTA}", "{0}", "Urine }", "{CR}", "{", "%s", "{{x}}"])
     def num():
         return r.choice(["140", "140.5", "4.10", "0.5", "101", "7.", "003.20", "12345.678", "0", "0.0"])
     vals = [num(), num(), num()]
@@ -231,9 +231,22 @@ def run(ctx):
     for _ in range(20000 if ctx.thorough else 3000):
         k = r.choice(["ENQ", "EOT", "final", "inter", "stxgarb", "garb", "near-mini", "near-spot"])
         if k == "near-mini":
-            line, _ = mini_line(r)
+            line, tags = mini_line(r)
             p = r.randrange(len(line))
-            u = r.choice([line[:p] + line[p + 1:], line[:-3], line[1:], line + b"x", line.replace(b"\x1d", b"\x1e", 1)])
+            cands = [line[:p] + line[p + 1:], line[:-3], line[1:], line + b"x", line.replace(b"\x1d", b"\x1e", 1)]
+            items = line[:-4].split(b"|")
+            if len(items) > 1:
+                j = r.randrange(1, len(items))
+                i2 = r.randrange(1, len(items))
+                rep = items[:j + 1] + [items[j][:3] + val(r).encode("utf-8")] + items[j + 1:]      # tag twice in a row
+                swp = list(items); swp[j], swp[i2] = swp[i2], swp[j]                            # out of order
+                unk = items[:j] + [b"\x1ezz" + val(r).encode("utf-8")] + items[j:]                # unknown tag
+                nors = items[:j] + [items[j][1:]] + items[j + 1:]                                # RS missing
+                mt2 = items[:1] + [b"\x1emtrsl"] + items[1:]                                     # second mt
+                far = items + [items[j]]                                                        # early tag again at the end
+                for alt in (rep, rep, swp, unk, nors, mt2, far):
+                    cands.append(b"|".join(alt) + line[-4:])
+            u = r.choice(cands)
         elif k == "near-spot":
             line, _ = spot_line(r)
             p = r.randrange(len(line))
@@ -244,9 +257,17 @@ def run(ctx):
     lines = ["vcan " + hexb(u) for _, u in units]
     model = common.drive(lines) if ctx.driver_ok else [None] * len(lines)
     for (k, u), ml in zip(units, model):
-        can = bool(re.match(mini_vidas.RX, u) or re.match(se1520.RX, u))
+        can = any(bool(mod.DataHandler(None, u).can_handle()) for mod in (mini_vidas, se1520))
+        ref = gens.is_vendor_line(u)
         n.case({"unit": hexb(u), "class": k})
         n.count(k)
+        n.count("in-format" if ref else "not-in-format")
+        if can and not ref:
+            n.fail({"unit": hexb(u), "class": k}, "a unit that is not in a vendor line format is taken over by a vendor converter",
+                   "not-taken-over/near-miss")
+        elif ref and not can:
+            n.fail({"unit": hexb(u), "class": k}, "a line in a vendor format is not recognised by its converter",
+                   "not-taken-over/refused")
         if k in ("ENQ", "EOT", "final", "inter") and can:
             n.fail({"unit": hexb(u), "class": k}, "an ordinary ASTM unit (%s) is taken over by a vendor converter" % k, "not-taken-over/ordinary")
         if ml is not None and ml != "ok %d" % (1 if can else 0):
